@@ -216,3 +216,26 @@ package constraint
 //@   props C09
 //@   requires system != nil
 //@   ensures @field-restored result == nil ==> system.q != nil && *system.q == strNum(system.ScalarField, 16) && (*system.q >= 0 ==> fits(*system.q, system.bitLen) && (system.bitLen > 0 ==> !fits(*system.q, system.bitLen - 1)))
+
+// ---- C19: bookkeeping of the GKR sub-circuit (constraint/gkr.go)
+//@ contract (GkrWire).IsInput
+//@   props C19
+//@   pure
+//@   ensures result == (len(w.Inputs) == 0)
+//@ contract (GkrWire).IsOutput
+//@   props C19
+//@   pure
+//@   ensures result == (w.NbUniqueOutputs == 0)
+
+// AssignmentOffsets: prefix sums of the number of explicitly assigned instances per wire: an input wire takes
+// NbInstances minus its dependencies, any other wire takes none
+//@ contract (*GkrInfo).AssignmentOffsets
+//@   props C19
+//@   requires d != nil
+//@   nopanic
+//@   assigns
+//@   ensures @length len(result) == len(d.Circuit) + 1 && fresh(result)
+//@   ensures @first result[0] == 0
+//@   ensures @step forall k int :: 0 <= k && k < len(d.Circuit) ==> result[k+1] == result[k] + ite(len(d.Circuit[k].Inputs) == 0, d.NbInstances - len(d.Circuit[k].Dependencies), 0)
+//@   loop 1 invariant @length len(res) == len(c) + 1 && res[0] == 0
+//@   loop 1 invariant @step forall k int :: 0 <= k && k < i ==> res[k+1] == res[k] + ite(len(c[k].Inputs) == 0, d.NbInstances - len(c[k].Dependencies), 0)
